@@ -86,7 +86,23 @@ impl BuildJob<'_> {
         debug_assert!(self.lock.is_owned());
         #[cfg(feature = "verif")]
         crate::verif::point("job.begin", &format!("{} {}", self.lock.file_id(), self.t));
-        let (is_target, dirty) = (self.should_build_func)(&mut ptx, &self.t)?;
+        let (is_target, dirty) = match (self.should_build_func)(&mut ptx, &self.t) {
+            Ok(x) => x,
+            Err(e) => {
+                // If the target's outcome is already known (e.g. it failed earlier
+                // in this run), that is this job's result, not an error of the run.
+                let mut cause: Option<&(dyn std::error::Error + 'static)> = Some(&e);
+                while let Some(c) = cause {
+                    if let Some(&RedoErrorKind::ImmediateExit(code)) =
+                        c.downcast_ref::<RedoError>().map(|re| re.kind())
+                    {
+                        return Ok(Box::pin(future::ready(code)));
+                    }
+                    cause = c.source();
+                }
+                return Err(e);
+            }
+        };
         #[cfg(feature = "verif")]
         crate::verif::point(
             "job.decide",
